@@ -132,11 +132,12 @@ package jmespath
 
 //@ func (*Lexer).matchOrElse
 //@   props C05
-//@   requires specLexOK(lexer.expression, lexer.currentPos, lexer.lastWidth) && lexer.lastWidth <= lexer.currentPos
+//@   requires specLexOK(lexer.expression, lexer.currentPos, lexer.lastWidth) && lexer.lastWidth <= lexer.currentPos && second >= 0
 //@   assigns Lexer.currentPos, Lexer.lastWidth
 //@   ensures [cursor-ok] specLexOK(lexer.expression, lexer.currentPos, lexer.lastWidth) && lexer.currentPos >= old(lexer.currentPos)
 //@   ensures {C17} [token-position] 0 <= result.position && result.position <= len(lexer.expression)
 //@   ensures [token-type] result.tokenType == matchedType || result.tokenType == singleCharType
+//@   ensures {C04,C14} [two-character-operator-exactly-when-the-second-character-follows] result.tokenType == ((old(lexer.currentPos) < len(lexer.expression) && specRuneAt(lexer.expression, old(lexer.currentPos)) == second) ? matchedType : singleCharType)
 //@   ensures {C14} [token-start] result.position == old(lexer.currentPos) - old(lexer.lastWidth)
 
 //@ func (*Lexer).consumeLBracket
@@ -146,6 +147,7 @@ package jmespath
 //@   ensures [cursor-ok] specLexOK(lexer.expression, lexer.currentPos, lexer.lastWidth) && lexer.currentPos >= old(lexer.currentPos)
 //@   ensures {C17} [token-position] 0 <= result.position && result.position <= len(lexer.expression)
 //@   ensures [token-type] result.tokenType == tFilter || result.tokenType == tFlatten || result.tokenType == tLbracket
+//@   ensures {C04,C14} [bracket-token-by-the-next-character] result.tokenType == ((old(lexer.currentPos) < len(lexer.expression) && specRuneAt(lexer.expression, old(lexer.currentPos)) == '?') ? tFilter : ((old(lexer.currentPos) < len(lexer.expression) && specRuneAt(lexer.expression, old(lexer.currentPos)) == ']') ? tFlatten : tLbracket))
 //@   ensures {C14} [token-start] result.position == old(lexer.currentPos) - old(lexer.lastWidth)
 
 //@ func (*Lexer).consumeNumber
@@ -239,11 +241,13 @@ package jmespath
 //@   ensures {C14} [an-identifier-token-is-exactly-a-token-that-starts-with-a-letter-or-underscore] (forall j int :: 0 <= j && j < len(result) - 1 ==> ((result[j].tokenType == tUnquotedIdentifier) <==> specIdentStart(specRuneAt(expression, specTokenStart(result[j])))))
 //@   ensures {C14} [delimited-tokens-carry-the-decoded-text] (forall j int :: 0 <= j && j < len(result) - 1 ==> (result[j].tokenType == tQuotedIdentifier ==> specScanFrom(expression, result[j].position + 1, '"') >= 0 && result[j].value == jsonDecodeStrOf(bytesOf("\"" + substr(expression, result[j].position + 1, specScanFrom(expression, result[j].position + 1, '"')) + "\""))) && (result[j].tokenType == tStringLiteral ==> thd(specRawFrom(expression, result[j].position, result[j].position, "")) && result[j].value == fst(specRawFrom(expression, result[j].position, result[j].position, ""))) && (result[j].tokenType == tJSONLiteral ==> specScanFrom(expression, result[j].position, '`') >= 0 && result[j].value == replaceAll(substr(expression, result[j].position, specScanFrom(expression, result[j].position, '`')), "\\`", "`")))
 //@   ensures {C14} [whitespace-is-never-an-error] isSyntaxError(err) && err.Offset < len(expression) ==> !specSpace(specRuneAt(expression, lexer.currentPos - lexer.lastWidth))
+//@   ensures {C04,C14} [every-token-has-the-type-its-first-characters-determine] (forall j int :: 0 <= j && j < len(result) - 1 ==> result[j].tokenType == specTokenTypeAt(expression, specTokenStart(result[j])))
 //@   ensures {C14} [whitespace-starts-no-token] (forall j int :: 0 <= j && j < len(result) - 1 ==> !specSpace(specRuneAt(expression, specTokenStart(result[j]))))
 //@   ensures {C14} [an-identifier-token-is-the-longest-run-of-identifier-characters] (forall j int :: 0 <= j && j < len(result) - 1 && result[j].tokenType == tUnquotedIdentifier ==> result[j].value == substr(expression, result[j].position, result[j].position + result[j].length) && (forall k int :: result[j].position < k && k < result[j].position + result[j].length ==> specIdentChar(toRune(byteAt(expression, k)))) && (result[j].position + result[j].length < len(expression) ==> !specIdentChar(specRuneAt(expression, result[j].position + result[j].length))))
 //@   loop 1 invariant lexOK(lexer) && lexer.expression == expression && lexer.buf == "" && tokensOK(tokens, len(tokens), len(expression))
 //@   loop 1 invariant {C14} [an-identifier-token-is-exactly-a-token-that-starts-with-a-letter-or-underscore] (forall j int :: 0 <= j && j < len(tokens) ==> 0 <= specTokenStart(tokens[j]) && specTokenStart(tokens[j]) < len(expression) && ((tokens[j].tokenType == tUnquotedIdentifier) <==> specIdentStart(specRuneAt(expression, specTokenStart(tokens[j])))))
 //@   loop 1 invariant {C14} [delimited-tokens-carry-the-decoded-text] (forall j int :: 0 <= j && j < len(tokens) ==> (tokens[j].tokenType == tQuotedIdentifier ==> specScanFrom(expression, tokens[j].position + 1, '"') >= 0 && tokens[j].value == jsonDecodeStrOf(bytesOf("\"" + substr(expression, tokens[j].position + 1, specScanFrom(expression, tokens[j].position + 1, '"')) + "\""))) && (tokens[j].tokenType == tStringLiteral ==> thd(specRawFrom(expression, tokens[j].position, tokens[j].position, "")) && tokens[j].value == fst(specRawFrom(expression, tokens[j].position, tokens[j].position, ""))) && (tokens[j].tokenType == tJSONLiteral ==> specScanFrom(expression, tokens[j].position, '`') >= 0 && tokens[j].value == replaceAll(substr(expression, tokens[j].position, specScanFrom(expression, tokens[j].position, '`')), "\\`", "`")))
+//@   loop 1 invariant {C04,C14} [every-token-has-the-type-its-first-characters-determine] (forall j int :: 0 <= j && j < len(tokens) ==> tokens[j].tokenType == specTokenTypeAt(expression, specTokenStart(tokens[j])))
 //@   loop 1 invariant {C14} [whitespace-starts-no-token] (forall j int :: 0 <= j && j < len(tokens) ==> !specSpace(specRuneAt(expression, specTokenStart(tokens[j]))))
 //@   loop 1 invariant {C14} [an-identifier-token-is-the-longest-run-of-identifier-characters] (forall j int :: 0 <= j && j < len(tokens) && tokens[j].tokenType == tUnquotedIdentifier ==> tokens[j].length >= 1 && tokens[j].position + tokens[j].length <= len(expression) && tokens[j].value == substr(expression, tokens[j].position, tokens[j].position + tokens[j].length) && (forall k int :: tokens[j].position < k && k < tokens[j].position + tokens[j].length ==> specIdentChar(toRune(byteAt(expression, k)))) && (tokens[j].position + tokens[j].length < len(expression) ==> !specIdentChar(specRuneAt(expression, tokens[j].position + tokens[j].length))))
 //@   loop 1 decreases len(expression) - lexer.currentPos
